@@ -106,6 +106,9 @@ def gen(rng, index, tier):
                             d.update({"m": rng.choice(MODULES), "p": rng.choice(PREFIXES), "n": rng.choice([1, 2, 5, 2000])})
                     op["decisions"].append(d)
             ops.append(op)
+        elif r < 0.47:
+            # the logger keeps its traces when add() raised and hands the same batch over again
+            ops.append({"op": "readd", "actor": a})
         elif r < 0.70:
             ops.append({"op": "filter", "actor": a, "m": rng.choice(MODULES), "p": rng.choice(PREFIXES), "n": rng.choice([0, 1, 2, 3, 5, 2000, None])})
         elif r < 0.78:
@@ -165,6 +168,7 @@ class World:
         self.compared_rows = 0
         self.parked_now = False
         self._inflight = None
+        self.last_batch = {}
 
     def obs(self):
         if self.observer is None or not self.observer.alive:
@@ -389,7 +393,14 @@ class World:
     def do_op(self, op, idx):
         k = op["op"]
         if k == "add":
+            self.last_batch[op["actor"]] = op["batch"]
             return self.do_add(op, idx)
+        if k == "readd":
+            b = self.last_batch.get(op["actor"])
+            if b is None:
+                return
+            self.faults["same_batch_added_again"] += 1
+            return self.do_add({"op": "add", "actor": op["actor"], "batch": b, "park_every": 0, "decisions": []}, idx)
         ai = op["actor"]
         where = "op%d" % idx
         if k == "filter":
